@@ -165,6 +165,83 @@ def handleA2A (k : A2AKind) (valid : Bool) (res : PoolRes) : List A2AEff :=
     | .vote => .addVote :: (if res = .slashable then [.warnSlashable] else [])
     | .cert => [.addCert]
 
+/-! ### what follows the pool call inside the node: `PoolImpl::add_valid_cert` → `PoolEvent::CertCreated` →
+`Votor::handle_pool_event` → `Votor::handle_cert_created` → `All2All::broadcast` (pool.rs:197-257, votor.rs:145-245) -/
+
+inductive CertKind where
+  | notar
+  | notarFallback
+  | skip
+  | fastFinal
+  | final
+deriving DecidableEq, Repr
+
+/-- a certificate as far as the node's reaction depends on it -/
+structure CertRef where
+  kind : CertKind
+  slot : Nat
+deriving DecidableEq, Repr
+
+/-- effects of the whole node (glue, pool, votor task) on one all-to-all message, in program order -/
+inductive NodeEff where
+  /-- an effect of `handle_all2all_message` itself -/
+  | glue (e : A2AEff)
+  /-- pool.rs `add_valid_cert`, last statement: `send_votor_event(PoolEvent::CertCreated(cert))` - the pool stored `c` newly -/
+  | certCreated (c : CertRef)
+  /-- votor.rs `handle_cert_created`, last statement: `self.broadcast(ConsensusMessage::from(cert))` -/
+  | bcast (c : CertRef)
+  /-- votor.rs `should_ignore_pool_event`: `CertCreated` of a slot below `first_unpruned_slot()` is dropped -/
+  | ignoreOld (c : CertRef)
+deriving DecidableEq, Repr
+
+/-- votor.rs:145 `first_unpruned_slot` = `highest_final_cert_slot.first_slot_in_window()` -/
+def votorFirstUnpruned (hf : Nat) : Nat := hf / Gen.SLOTS_PER_WINDOW * Gen.SLOTS_PER_WINDOW
+
+def CertKind.isFinal : CertKind → Bool
+  | .final | .fastFinal => true
+  | _ => false
+
+/-- the Votor task working off the `CertCreated` events in channel order; `hf` = `highest_final_cert_slot`.
+    (Its own votes - `try_final` after a notarization certificate, skip votes on timeouts - are not part of this model.) -/
+def votorCerts (hf : Nat) : List CertRef → List NodeEff × Nat
+  | [] => ([], hf)
+  | c :: cs =>
+    if c.slot < votorFirstUnpruned hf then
+      ((NodeEff.ignoreOld c) :: (votorCerts hf cs).1, (votorCerts hf cs).2)
+    else
+      let hf1 := if c.kind.isFinal then max hf c.slot else hf
+      ((NodeEff.bcast c) :: (votorCerts hf1 cs).1, (votorCerts hf1 cs).2)
+
+/-- **the node on one all-to-all message**: the glue, then - only if the message validated and the pool answered
+    `Ok(())` - a `CertCreated` event per certificate the pool newly stored during this call (`created`: the message
+    itself if it is a certificate, the certificates a vote completed), then the Votor task re-broadcasting them.
+    `add_cert` / `add_vote` return `Err(_)` before `add_valid_cert` can run, so `created` is not looked at then.
+    Result: effects, new `highest_final_cert_slot`. -/
+def a2aNode (k : A2AKind) (valid : Bool) (res : PoolRes) (created : List CertRef) (hf : Nat) : List NodeEff × Nat :=
+  let g := (handleA2A k valid res).map NodeEff.glue
+  if valid && res = .ok then
+    (g ++ created.map NodeEff.certCreated ++ (votorCerts hf created).1, (votorCerts hf created).2)
+  else (g, hf)
+
+def CertKind.name : CertKind → String
+  | .notar => "notar"
+  | .notarFallback => "nf"
+  | .skip => "skip"
+  | .fastFinal => "ff"
+  | .final => "final"
+
+/-- observable on the real node: pool calls (hook `verif_add_msg_calls`) and certificate broadcasts (recording `All2All`) -/
+def renderNodeEff : NodeEff → Option String
+  | .glue .addVote => some "add_vote"
+  | .glue .addCert => some "add_cert"
+  | .bcast c => some s!"bcast {c.kind.name}@{c.slot}"
+  | _ => none
+
+def renderNode (es : List NodeEff) : String :=
+  match es.filterMap renderNodeEff with
+  | [] => "none"
+  | x :: xs => xs.foldl (fun s t => s ++ " | " ++ t) x
+
 /-! ### every node runs the glue: the per-node behaviour of `Route.run` -/
 
 /-- node `v` of `n` receives shred `s` of a slot led by `ldr` under Rotor (committee of the slice given): the
